@@ -181,4 +181,16 @@ def run_property(prop, tier="quick", jobs=None, only=None, timeout_ms=None):
         with ctxm.Pool(jobs) as pool:
             for r in pool.imap_unordered(_job, tasks, chunksize=1):
                 results.append(r)
+        # a case that ran out of its wall budget WITHOUT any failed obligation gets one more run, each in a fresh process (the solver's
+        # running time on identical queries varies by orders of magnitude with the state of a long-lived worker; a verdict must not)
+        slow = [k for k, (hi, ci, r) in enumerate(results) if any("time budget exhausted" in u.get("reason", "") for u in r["undecided"])
+                and not any(o["verdict"] == "refuted" for o in r["obligations"])][:6]
+        if slow:
+            by_key = {(t[0], t[1]): t for t in tasks}
+            with ctxm.Pool(min(len(slow), jobs), maxtasksperchild=1) as pool:
+                again = pool.map(_job, [by_key[(results[k][0], results[k][1])] for k in slow], chunksize=1)
+            for k, r2 in zip(slow, again):
+                if not any("time budget exhausted" in u.get("reason", "") for u in r2[2]["undecided"]):
+                    r2[2].setdefault("notes", []).append("second run in a fresh process after the first exhausted its wall budget")
+                    results[k] = r2
     return hs, results
